@@ -348,6 +348,8 @@ class Interp:
             return ('f64const', m.group(1))
         if o == 'const ()':
             return []
+        if re.fullmatch(r'const .*::promoted\[\d+\]', o):
+            return ('promoted-constant', o)
         if o == 'const true':
             return True
         if o == 'const false':
@@ -427,6 +429,9 @@ class Interp:
         m = re.fullmatch(r'[\w:]+(?:::<.*?>)? \{ (.*) \}', rv)  # struct ctor
         if m:
             return [self.operand(env, x.split(':', 1)[1]) for x in split_args(m.group(1))]
+        m = re.fullmatch(r'[\w:]+::<[^()]*>::(\w+)', rv)          # fieldless variant of a generic enum, e.g. Closest::<F>::Indeterminate
+        if m and not rv.startswith(('copy', 'move', 'const')):
+            return Enum(m.group(1))
         m = re.fullmatch(r'(?:[\w]+::)+(\w+)', rv)                 # fieldless enum variant
         if m and not rv.startswith(('copy', 'move', 'const')):
             return Enum(m.group(1))
